@@ -1,47 +1,30 @@
-import DFV.Lemmas.C17Reject
-/-! Rebuilding the mesh of an ARBITRARY DataArray (not necessarily an export) from evenly
-spaced coordinates alone. -/
+import DFV.Lemmas.C17Rebuild
+/-! Rebuilding the mesh of an ARBITRARY DataArray with ANY subset of `cell` / `pmin` / `pmax`
+present (each present attribute consistent with the coordinates): single-cell axes are
+allowed exactly when `cell` is present. -/
 namespace DFV.C17
 open DFV
 
 section
 variable [FieldAttrs] {α : Type}
 
-/-- `from_xarray` = component-count checks, geometry, field construction -/
-theorem fromXA_eq (xa : XA α) :
-    fromXA xa = (checkNvdim xa.attrs.nvdim xa.dims).bind fun k => (geometryOf xa).bind fun m => fieldOf xa m k := by
-  unfold fromXA geometryOf
-  cases checkNvdim xa.attrs.nvdim xa.dims with
-  | error e => rfl
-  | ok k =>
-    cases checkSpacing xa with
-    | error e => rfl
-    | ok u =>
-      cases cellOf xa with
-      | error e => rfl
-      | ok cell =>
-        cases meshOf xa cell <;> rfl
+/-- which of the three geometric attributes are present, and that the present ones say what
+the coordinates say (step `h`, half a step beyond the outermost coordinates) -/
+structure AttrsConsistent (xa : XA α) (d : Nat) (v0 h : Nat → Rat) (n : Nat → Nat) : Prop where
+  cell : xa.attrs.cell = none ∨ xa.attrs.cell = some (tab d h)
+  pmin : xa.attrs.pmin = none ∨ xa.attrs.pmin = some (tab d fun a => v0 a - h a / 2)
+  pmax : xa.attrs.pmax = none ∨ xa.attrs.pmax = some (tab d fun a => v0 a + ((n a : Rat) - 1) * h a + h a / 2)
+  /-- without `cell` the step must be inferable: two coordinates per axis (and no length 1
+  among `xa.values.shape[:-1]`) -/
+  infer : xa.attrs.cell = none → (∀ a, a < d → 2 ≤ n a) ∧ ∀ x ∈ xa.data.shape.dropLast, x ≠ 1
 
 omit [FieldAttrs] in
-theorem unitsOf_ok (xa : XA α) (d : Nat) (hlen : (geo xa).length = d) :
-    ∃ u, Region.unitsOk d (unitsOf xa) = .ok u := by
-  unfold unitsOf
-  split
-  · exact ⟨_, rfl⟩
-  · exact ⟨_, unitsOk_some _ _ (by simp [hlen])⟩
-
-omit [FieldAttrs] in
-/-- **Rebuild from coordinates, any DataArray.**  If the geometric axes carry evenly spaced
-coordinates `v0, v0+h, …` (`h > 0`, at least two per axis, distinct names) and none of
-`cell`/`pmin`/`pmax` is present, the geometry steps succeed and the mesh spans exactly half a
-step beyond the outermost coordinates, with one cell per coordinate. -/
-theorem geometry_from_coords (xa : XA α) (d : Nat) (G : Nat → Axis) (hgeo : geo xa = tab d G) (hd : 0 < d)
+theorem geometry_from_coords_gen (xa : XA α) (d : Nat) (G : Nat → Axis) (hgeo : geo xa = tab d G) (hd : 0 < d)
     (v0 h : Nat → Rat) (n : Nat → Nat)
     (hval : ∀ a, a < d → (G a).values = ap (v0 a) (h a) (n a))
-    (hh : ∀ a, a < d → 0 < h a) (hn : ∀ a, a < d → 2 ≤ n a)
+    (hh : ∀ a, a < d → 0 < h a) (hn : ∀ a, a < d → 1 ≤ n a)
     (hnames : hasDup (tab d fun a => (G a).name) = false)
-    (hcell : xa.attrs.cell = none) (hpmin : xa.attrs.pmin = none) (hpmax : xa.attrs.pmax = none)
-    (hshape : ∀ x ∈ xa.data.shape.dropLast, x ≠ 1) :
+    (hat : AttrsConsistent xa d v0 h n) :
     ∃ m, geometryOf xa = .ok m ∧
       m.region.pmin = (tab d fun a => v0 a - h a / 2) ∧
       m.region.pmax = (tab d fun a => v0 a + ((n a : Rat) - 1) * h a + h a / 2) ∧
@@ -54,27 +37,30 @@ theorem geometry_from_coords (xa : XA α) (d : Nat) (G : Nat → Axis) (hgeo : g
     · intro a ha; rw [hval a ha]; exact evenB_ap _ _ _
   have hce : cellOf xa = .ok (tab d h) := by
     unfold cellOf
-    rw [hcell]
-    simp only []
-    have h1 : xa.data.shape.dropLast.any (· == 1) = false := by
-      rw [List.any_eq_false]
-      intro x hx
-      simpa using hshape x hx
-    have h2 : (geo xa).any (fun a => decide (a.values.length ≤ 1)) = false := by
-      rw [hgeo]
-      apply any_tab_false
+    rcases hat.cell with hcell | hcell
+    · obtain ⟨hn2, hshape⟩ := hat.infer hcell
+      rw [hcell]
+      simp only []
+      have h1 : xa.data.shape.dropLast.any (· == 1) = false := by
+        rw [List.any_eq_false]
+        intro x hx
+        simpa using hshape x hx
+      have h2 : (geo xa).any (fun a => decide (a.values.length ≤ 1)) = false := by
+        rw [hgeo]
+        apply any_tab_false
+        intro a ha
+        rw [hval a ha, ap_length]
+        have := hn2 a ha
+        simp; omega
+      rw [h1, h2]
+      simp only [Bool.false_eq_true, if_false]
+      rw [hgeo, map_tab]
+      congr 1
+      apply tab_congr
       intro a ha
-      rw [hval a ha, ap_length]
-      have := hn a ha
-      simp; omega
-    rw [h1, h2]
-    simp only [Bool.false_eq_true, if_false]
-    rw [hgeo, map_tab]
-    congr 1
-    apply tab_congr
-    intro a ha
-    rw [hval a ha]
-    exact meanDiff_ap _ _ _ (hn a ha)
+      rw [hval a ha]
+      exact meanDiff_ap _ _ _ (hn2 a ha)
+    · rw [hcell]
   have hz : (List.zip (geo xa) (tab d h)).any (fun p => p.1.values.isEmpty) = false := by
     rw [hgeo, zip_tab]
     apply any_tab_false
@@ -84,31 +70,35 @@ theorem geometry_from_coords (xa : XA α) (d : Nat) (G : Nat → Axis) (hgeo : g
     exact ⟨_, getD_mem _ 0 0 (by rw [ap_length]; have := hn a ha; omega)⟩
   have hp1 : p1Of xa (tab d h) = .ok (tab d fun a => v0 a - h a / 2) := by
     unfold p1Of
-    rw [hpmin]
-    simp only []
-    rw [hz]
-    simp only [Bool.false_eq_true, if_false]
-    rw [hgeo, zipWith_tab]
-    congr 1
-    apply tab_congr
-    intro a ha
-    rw [hval a ha, ap_first _ _ _ (by have := hn a ha; omega)]
+    rcases hat.pmin with hpmin | hpmin
+    · rw [hpmin]
+      simp only []
+      rw [hz]
+      simp only [Bool.false_eq_true, if_false]
+      rw [hgeo, zipWith_tab]
+      congr 1
+      apply tab_congr
+      intro a ha
+      rw [hval a ha, ap_first _ _ _ (hn a ha)]
+    · rw [hpmin]
   have hp2 : p2Of xa (tab d h) = .ok (tab d fun a => v0 a + ((n a : Rat) - 1) * h a + h a / 2) := by
     unfold p2Of
-    rw [hpmax]
-    simp only []
-    rw [hz]
-    simp only [Bool.false_eq_true, if_false]
-    rw [hgeo, zipWith_tab]
-    congr 1
-    apply tab_congr
-    intro a ha
-    rw [hval a ha, ap_last _ _ _ (by have := hn a ha; omega)]
+    rcases hat.pmax with hpmax | hpmax
+    · rw [hpmax]
+      simp only []
+      rw [hz]
+      simp only [Bool.false_eq_true, if_false]
+      rw [hgeo, zipWith_tab]
+      congr 1
+      apply tab_congr
+      intro a ha
+      rw [hval a ha, ap_last _ _ _ (hn a ha)]
+    · rw [hpmax]
   obtain ⟨u, hu⟩ := unitsOf_ok xa d (by rw [hgeo]; simp)
   have hlt : ∀ a, a < d → v0 a - h a / 2 < v0 a + ((n a : Rat) - 1) * h a + h a / 2 := by
     intro a ha
     have h1 := hh a ha
-    have h2 : (2 : Rat) ≤ (n a : Rat) := by exact_mod_cast hn a ha
+    have h2 : (1 : Rat) ≤ (n a : Rat) := by exact_mod_cast hn a ha
     nlinarith
   have hreg := regionMk_ok (tab d fun a => v0 a - h a / 2)
     (tab d fun a => v0 a + ((n a : Rat) - 1) * h a + h a / 2) (tab d fun a => (G a).name) (unitsOf xa) u defaultTol
@@ -119,7 +109,6 @@ theorem geometry_from_coords (xa : XA α) (d : Nat) (G : Nat → Axis) (hgeo : g
       rw [getD_tab _ _ _ _ ha', getD_tab _ _ _ _ ha']
       exact hlt a ha')
   have hnm : (geo xa).map Axis.name = tab d fun a => (G a).name := by rw [hgeo, map_tab]
-  -- the region the importer builds
   generalize hr : ({ pmin := tab d fun a => v0 a - h a / 2,
                      pmax := tab d fun a => v0 a + ((n a : Rat) - 1) * h a + h a / 2,
                      dims := tab d fun a => (G a).name, units := u, tol := defaultTol } : Region) = r at hreg
@@ -139,7 +128,7 @@ theorem geometry_from_coords (xa : XA α) (d : Nat) (G : Nat → Axis) (hgeo : g
     unfold Region.edge
     rw [hlo a ha, hhi a ha]
     have : (n a : Rat) ≠ 0 := by
-      have : (2 : Rat) ≤ (n a : Rat) := by exact_mod_cast hn a ha
+      have : (1 : Rat) ≤ (n a : Rat) := by exact_mod_cast hn a ha
       intro h0; linarith
     field_simp
     ring
@@ -155,65 +144,17 @@ theorem geometry_from_coords (xa : XA α) (d : Nat) (G : Nat → Axis) (hgeo : g
     rw [hk]
   all_goals (subst hr; cases ht : xa.attrs.tol <;> simp [setTol])
 
-/-- `Field(mesh, nvdim, value=val, vdims=…, dtype=…)` on a value array of the field's shape -/
-theorem fieldOf_ok (xa : XA α) (m : Mesh) (k : Nat) (hs : (valOf xa k).shape = m.n ++ [k])
-    (vd : Option (List String)) (hvs : vdimsSet k xa.vdimsCoord = .ok vd)
-    (hmap : ¬ (k ≠ 1 ∧ k = m.region.dims.length ∧ vd = none)) :
-    ∃ g, fieldOf xa m k = .ok g ∧ g.mesh = m ∧ g.nvdim = k ∧ Agree g.data (valOf xa k) ∧ g.vdims = vd ∧
-      g.dtype = xa.dtype := by
-  obtain ⟨d1, hd1, ha1⟩ := asArray_same (valOf xa k) m.n k hs
-  obtain ⟨d2, hd2, ha2⟩ := asArray_same d1 m.n k (ha1.1.trans hs)
-  refine ⟨{ mesh := m, nvdim := k, data := d2, valid := NDA.const m.n true, vdims := vd,
-            vmap := defaultVmap k m.region.dims vd, unit := none, dtype := xa.dtype }, ?_, rfl, rfl, ha2.trans ha1, rfl, rfl⟩
-  unfold fieldOf
-  rw [hd1]
-  simp only [Except.bind]
-  rw [hd2]
-  simp only []
-  rw [hvs]
-  simp only []
-  rw [if_neg hmap]
-
-omit [FieldAttrs] in
-theorem defaultVdims_ne_none (k : Nat) (hk : 1 < k) : Fld.defaultVdims k ≠ none := by
-  unfold Fld.defaultVdims
-  have : k ≠ 1 := by omega
-  simp only [this, if_false]
-  split <;> simp
-
-/-- **Import of a hand-built DataArray**: evenly spaced coordinates on distinctly named axes
-(at least two per axis), no `cell`/`pmin`/`pmax`, an integer `nvdim = k ≥ 1`, data of shape
-`(*n)` (scalar) or `(*n, k)` with the `vdims` axis last, labels absent or `k` distinct strings:
-the import succeeds, the mesh spans half a step beyond the outermost coordinates, and every
-value sits at its own cell and component. -/
-theorem import_hand_built_ok (xa : XA α) (d : Nat) (G : Nat → Axis) (hgeo : geo xa = tab d G) (hd : 0 < d)
-    (v0 h : Nat → Rat) (n : Nat → Nat)
-    (hval : ∀ a, a < d → (G a).values = ap (v0 a) (h a) (n a))
-    (hh : ∀ a, a < d → 0 < h a) (hn : ∀ a, a < d → 2 ≤ n a)
-    (hnames : hasDup (tab d fun a => (G a).name) = false)
-    (hcell : xa.attrs.cell = none) (hpmin : xa.attrs.pmin = none) (hpmax : xa.attrs.pmax = none)
+/-- the value/label part of `import_hand_built_ok`, for any mesh the geometry steps return -/
+theorem import_of_geometry (xa : XA α) (d : Nat) (n : Nat → Nat) (m : Mesh) (hm : geometryOf xa = .ok m)
+    (hmn : m.n = tab d n)
     (k : Nat) (hk : 1 ≤ k) (hnv : xa.attrs.nvdim = some (.int k)) (hvd : 1 < k → "vdims" ∈ xa.dims)
     (hshape : xa.data.shape = tab d n ++ (if 1 < k then [k] else []))
     (hlab : ∀ l, xa.vdimsCoord = some l → l.length = k ∧ hasDup l = false ∧ l.any FieldAttrs.has = false) :
-    ∃ g, fromXA xa = .ok g ∧
-      g.mesh.region.pmin = (tab d fun a => v0 a - h a / 2) ∧
-      g.mesh.region.pmax = (tab d fun a => v0 a + ((n a : Rat) - 1) * h a + h a / 2) ∧
-      g.mesh.n = tab d n ∧ g.mesh.region.dims = (tab d fun a => (G a).name) ∧ g.nvdim = k ∧
+    ∃ g, fromXA xa = .ok g ∧ g.mesh = m ∧ g.nvdim = k ∧
       g.data.shape = tab d n ++ [k] ∧
       (∀ i, inRange (tab d n ++ [k]) i = true → g.data.get i = xa.data.get (if 1 < k then i else i.dropLast)) ∧
       g.dtype = xa.dtype ∧
       g.vdims = (match xa.vdimsCoord with | some l => some l | none => Fld.defaultVdims k) := by
-  have hsh : ∀ x ∈ xa.data.shape.dropLast, x ≠ 1 := by
-    intro x hx
-    rw [hshape] at hx
-    have hx' : x ∈ tab d n := by
-      split at hx
-      · rwa [List.dropLast_concat] at hx
-      · rw [List.append_nil] at hx; exact (List.dropLast_sublist _).subset hx
-    obtain ⟨a, ha, rfl⟩ := mem_tab _ _ _ hx'
-    have := hn a ha; omega
-  obtain ⟨m, hm, hp1, hp2, hmn, hdims, -⟩ :=
-    geometry_from_coords xa d G hgeo hd v0 h n hval hh hn hnames hcell hpmin hpmax hsh
   have hck : checkNvdim xa.attrs.nvdim xa.dims = .ok k := by
     rw [hnv]
     unfold checkNvdim
@@ -250,8 +191,7 @@ theorem import_hand_built_ok (xa : XA α) (d : Nat) (G : Nat → Axis) (hgeo : g
     | some l => rw [hv] at h3; cases h3
     | none => rw [hv] at h3; exact defaultVdims_ne_none k (by omega) h3
   obtain ⟨g, hg, hgm, hgk, hga, hgv, hgt⟩ := fieldOf_ok xa m k hvs _ hvset hmap
-  refine ⟨g, ?_, by rw [hgm]; exact hp1, by rw [hgm]; exact hp2, by rw [hgm]; exact hmn, by rw [hgm]; exact hdims,
-    hgk, by rw [hga.1, hvs, hmn], ?_, hgt, hgv⟩
+  refine ⟨g, ?_, hgm, hgk, by rw [hga.1, hvs, hmn], ?_, hgt, hgv⟩
   · rw [fromXA_eq, hck]
     simp only [Except.bind]
     rw [hm]
